@@ -51,6 +51,7 @@ type VerifEvent struct {
 	Closed   bool   // p.err != nil
 	Broken   bool   // p.breakErr != nil
 	Released bool   // p.b == nil
+	Cap      int    // capacity of the FixedBuffer, -1 for another / no buffer
 }
 
 type verifTraceState struct {
@@ -67,6 +68,14 @@ func (p *Pipe) VerifAttach(fn func(ev *VerifEvent)) {
 	p.mu.Unlock()
 }
 
+// verifDefaultTracer receives the events of every pipe that has no tracer of its own.
+var verifDefaultTracer func(p *Pipe, ev *VerifEvent)
+
+// VerifSetDefaultTracer installs fn for all pipes without an attached tracer, e.g. pipes
+// created inside other packages.  It must be called before any pipe is in use (from an
+// init function).  fn runs with p.mu held and must not call into p.
+func VerifSetDefaultTracer(fn func(p *Pipe, ev *VerifEvent)) { verifDefaultTracer = fn }
+
 func verifErrClass(err error) int {
 	switch err {
 	case nil:
@@ -81,22 +90,29 @@ func verifErrClass(err error) int {
 
 // requires p.mu be held.
 func (p *Pipe) verifEmit(op string, asked, n int, err error, data []byte) {
-	if p.vt.fn == nil {
+	if p.vt.fn == nil && verifDefaultTracer == nil {
 		return
 	}
 	p.vt.seq++
 	ev := VerifEvent{Seq: p.vt.seq, Op: op, Asked: asked, N: n, Err: err, ErrClass: verifErrClass(err),
-		Data: data, Buffered: -1, Closed: p.err != nil, Broken: p.breakErr != nil, Released: p.b == nil}
+		Data: data, Buffered: -1, Closed: p.err != nil, Broken: p.breakErr != nil, Released: p.b == nil, Cap: -1}
 	if p.b != nil {
 		ev.Buffered = p.b.Len()
 	}
-	p.vt.fn(&ev)
+	if fb, ok := p.b.(*FixedBuffer); ok {
+		ev.Cap = len(fb.buf)
+	}
+	if p.vt.fn != nil {
+		p.vt.fn(&ev)
+	} else {
+		verifDefaultTracer(p, &ev)
+	}
 }
 
 // verifTraceIO is deferred by Read and Write after the deferred Unlock, so it runs
 // first, with the lock held, and sees the final values of the named results.
 func (p *Pipe) verifTraceIO(op string, d []byte, n *int, err *error) {
-	if p.vt.fn == nil {
+	if p.vt.fn == nil && verifDefaultTracer == nil {
 		return
 	}
 	var data []byte
